@@ -42,7 +42,7 @@ func storeMethod(P *core.Program, typ, m string) *ssa.Function {
 // Store-interface methods of the same store are separate roots and not entered).
 func storeScope(P *core.Program, fn *ssa.Function) []*ssa.Function {
 	return P.Scope(fn, func(f *ssa.Function) bool {
-		if f.Pkg == nil || f.Pkg.Pkg.Path() != core.PkgGcsemu {
+		if core.PkgPathOf(f) != core.PkgGcsemu {
 			return true
 		}
 		if f.Signature.Recv() != nil && f.Object() != nil && f.Object().Exported() && core.NamedOf(f.Signature.Recv().Type()) == core.NamedOf(fn.Signature.Recv().Type()) {
